@@ -806,6 +806,9 @@ func (x *Exec) specCall(env *SpecEnv, c ECall) SpecVal {
 			}
 		}
 		return SpecVal{T: And(cs...)}
+	case "calls":
+		f := x.specTerm(env, c.Args[0])
+		return SpecVal{T: Select(x.heapGet(env.st, "$calls", SArr(SInt, x.idxSort())), f)}
 	case "done":
 		c := x.specTerm(env, c.Args[0])
 		return SpecVal{T: x.doneNow(env.st, c)}
@@ -995,6 +998,11 @@ func (x *Exec) applyContract(cfg *Config, f *Frame, fn *ssa.Function, c *FuncCon
 		x.oblige(cfg, "call-pre", c.Key+": "+x.clauseLabel(r), t, nil, pos)
 		cfg.st.assume(t)
 	}
+	// a callee that takes a lock states its contract relative to the start of
+	// its atomic section: other goroutines may run before it gets the lock
+	if acq, ok := c.Options["acquires"]; ok {
+		x.callerSideAcquire(cfg, env, c, acq)
+	}
 	oldSt := cfg.st.clone()
 	env.old = oldSt
 	// panics clauses fork an exceptional path
@@ -1031,6 +1039,61 @@ func (x *Exec) applyContract(cfg *Config, f *Frame, fn *ssa.Function, c *FuncCon
 	}
 	more, end := x.applyContractTail(cfg, f, fn, c, args, binds, dest, isDefer, oldSt)
 	return append(forks, more...), end
+}
+
+// callerSideAcquire havocs what the callee's lock protects and assumes its
+// invariant: the state in which the callee's atomic section starts.
+func (x *Exec) callerSideAcquire(cfg *Config, env *SpecEnv, c *FuncContract, acq string) {
+	e, err := ParseExpr(acq)
+	if err != nil {
+		unsupported("option acquires %q: %v", acq, err)
+	}
+	fe, ok := e.(EField)
+	if !ok {
+		unsupported("option acquires wants obj.mutexfield")
+	}
+	base := x.spec(env, fe.X)
+	if base.Ty == nil {
+		unsupported("option acquires: untyped base")
+	}
+	styp := base.Ty
+	if el := derefType(styp); el != nil {
+		styp = el
+	}
+	s, ok := styp.Underlying().(*types.Struct)
+	if !ok {
+		unsupported("option acquires: not a struct")
+	}
+	for i := 0; i < s.NumFields(); i++ {
+		if s.Field(i).Name() != fe.Name {
+			continue
+		}
+		o := &origin{styp, i, base.T}
+		ld := x.lockDeclFor(o)
+		if ld == nil {
+			return
+		}
+		held := false
+		for _, h := range cfg.heldLocks {
+			if h.ld == ld && h.o.Base.S == o.Base.S {
+				held = true
+			}
+		}
+		if held {
+			return // (the callee's !held precondition fails anyway)
+		}
+		x.havocLock(cfg, ld, o)
+		x.interfere(cfg)
+		lenv := x.lockEnv(cfg, ld, o)
+		for _, inv := range ld.invs {
+			cfg.st.assume(x.specBool(lenv, inv.E))
+		}
+		if x.c != nil && x.c.Options["old"] == "section" {
+			cfg.old = cfg.st.clone()
+		}
+		return
+	}
+	unsupported("option acquires: no field %s", fe.Name)
 }
 
 func (e *SpecEnv) withCfg(cfg *Config) *SpecEnv {
@@ -1334,6 +1397,9 @@ func (x *Exec) panicExitChecks(cfg *Config, f *Frame) {
 	x.oblige(cfg, "no-panic", why, Or(allowed...), nil, token.NoPos)
 	// state on exceptional exit: "leaving-unchanged" = frame conditions hold too
 	env.st = cfg.st
+	for _, e := range x.c.EnsuresPanic {
+		x.oblige(cfg, "post-panic", x.clauseLabel(e), x.specBool(env, e.E), x.clauseProps(e, nil), token.NoPos)
+	}
 	x.frameChecks(cfg, env)
 }
 
